@@ -79,6 +79,9 @@ class Optimizer(Identifiable, Runnable):
             if handler.stop:
                 break
             self.optimizer.step(closure)
+            # the last update of the step is not followed by a call of the closure
+            for p in self.parameters:
+                p.fire_parameter_changed()
             state = self.optimizer.state_dict()['state'][0]
 
             with torch.no_grad():
